@@ -1340,7 +1340,8 @@ def run(ctx):
         for fd in itertools.product(VALUES, repeat=n):
             subsets = [s for r in range(n + 1) for s in itertools.combinations(range(n), r)]
             # the same sets written with cells listed more than once / in another order
-            subsets.append(tuple(inlet_seq(rng, n, p_repeat=0.8)))
+            if rng.random() < 0.5:
+                subsets.append(tuple(inlet_seq(rng, n, p_repeat=0.8)))
             do_grid(nrows, ncols, list(fd), range(n), subsets, [n + 2], full=True, dtypes=False)
     for (nrows, ncols) in [(2, 2), (1, 4), (4, 1)]:
         for _ in range(ctx.scale(150, 1500)):
